@@ -1,7 +1,7 @@
 #!/bin/bash
 # tools/runall.sh [quick|thorough] [seed]: run every registered check, validate evidence, summarise.
 tier=${1:-quick}; export VERIF_SEED=${2:-1}
-cd /verif
+cd "$(dirname "$(readlink -f "$0")")/.."
 ids=$(python3 -c "import json;print(' '.join(c['property_id'] for c in json.load(open('MANIFEST.json'))['checks']))")
 for id in $ids; do
   s=$(date +%s)
@@ -13,7 +13,7 @@ python3-vt - <<'PY'
 import json,jsonschema,glob
 sch=json.load(open('/root/.vp/EVIDENCE.schema.json'))
 bad=0
-for f in sorted(glob.glob('/verif/evidence/*.json')):
+for f in sorted(glob.glob('evidence/*.json')):
     try: jsonschema.validate(json.load(open(f)),sch)
     except Exception as e: bad+=1; print(f,'INVALID',str(e)[:120])
 print("evidence invalid:",bad)
